@@ -99,6 +99,8 @@ type jScopeObj struct {
 	Name        string        `json:"name"`
 	Pos         string        `json:"pos"`
 	IsInterface bool          `json:"isInterface"`
+	// IsTypeName: the object is a declared type (not a variable, constant or function whose type happens to be an interface)
+	IsTypeName bool `json:"isTypeName"`
 	InSetupFile bool          `json:"inSetupFile"`
 	DocChain    []int         `json:"docChain"`
 	Methods     []jMethodDecl `json:"methods"`
@@ -432,6 +434,7 @@ func ExtractFacts(srcPath, dstPath, rel string) (*Facts, error) {
 		obj := scope.Lookup(name)
 		so := jScopeObj{Name: obj.Name(), Pos: posStr(obj.Pos()), DocChain: []int{}, Methods: []jMethodDecl{}}
 		so.InSetupFile = fset.Position(obj.Pos()).Filename == srcName
+		_, so.IsTypeName = obj.(*types.TypeName)
 		if iface, ok := obj.Type().Underlying().(*types.Interface); ok {
 			so.IsInterface = true
 			if so.InSetupFile {
